@@ -5,10 +5,11 @@
          image description, see `parseImage`; <cov>: one digit per byte of the image:
          0 not covered by a checksum, 1 covered, 2 covered and an info-area length byte
     parse <vv> <kind> <hex>           -> ok <view> | <error tag>      Model.parseFru
-         vv = two flags (bcdBytesOnly, sixStrict), kind = b | a | l
+         vv = five flags (bcdBytesOnly, sixStrict, areaLenLax, devLenLax, picmgTypeOnly), kind = b | a | l
+    dev <vv> <hex>                    -> ok <view> | <error tag>      Model.parseFruDevice (hex = device storage)
     tl <vv> <kind> <hex>              -> ok <field> | <error tag>     Model.tlString
     area <vv> <kind> <c|b|p> <hex>    -> ok <slot> | <error tag>      Model.parseArea
-    mr <hex>                          -> ok <slot> | <error tag>      Model.parseMulti
+    mr <vv> <hex>                     -> ok <slot> | <error tag>      Model.parseMulti
     hdr <hex>                         -> ok <header> | <error tag>    Model.parseHeader
     sums <hex>                        -> 0 | 1                        Spec.checksumsOk
     date <minutes>                    -> y m d h mi                   Spec.dateOfMinutes
@@ -16,6 +17,7 @@
 import PyIpmi.Base.Proto
 import PyIpmi.Spec.FruFormat
 import PyIpmi.Model.FruParse
+import PyIpmi.Model.FruDevice
 open PyIpmi PyIpmi.Fru PyIpmi.Proto
 
 /-! ### printing views -/
@@ -144,7 +146,7 @@ def covString (img : FruImage) (n : Nat) : String :=
 
 def parseVariant (s : String) : Option Variant :=
   match s.toList with
-  | [a, b] => some ⟨a == '1', b == '1'⟩
+  | [a, b, c, d, e] => some ⟨a == '1', b == '1', c == '1', d == '1', e == '1'⟩
   | _ => none
 
 def parseKind (s : String) : Option InputKind :=
@@ -176,10 +178,14 @@ def handleC15 (line : String) : String :=
     match parseVariant vv, parseKind k, parseAreaKind a, ofHex h with
     | some v, some k, some a, some bs => showOutcome (showSlot showArea) (parseArea v k a bs)
     | _, _, _, _ => "bad-op"
-  | ["mr", h] =>
-    match ofHex h with
-    | some bs => showOutcome (showSlot showRecs) (parseMulti bs)
-    | none => "bad-op"
+  | ["dev", vv, h] =>
+    match parseVariant vv, ofHex h with
+    | some v, some bs => showOutcome showView (parseFruDevice v bs)
+    | _, _ => "bad-op"
+  | ["mr", vv, h] =>
+    match parseVariant vv, ofHex h with
+    | some v, some bs => showOutcome (showSlot showRecs) (parseMulti v bs)
+    | _, _ => "bad-op"
   | ["hdr", h] =>
     match ofHex h with
     | some bs => showOutcome showHeader (parseHeader bs)
